@@ -13,9 +13,9 @@ EXPLANATION = (
     "sharp s and theta variants, internal blank runs, duplicates) chosen by a symbolic index; destination/title/text carry free characters."
 )
 BOUNDS = {
-    "quick": "2 definitions with labels from a 12-label menu (symbolic index per definition and per use), 1 free character in the title and 1 in the link text; "
-             "reference-vs-inline form: 1 free character in each of destination (ASCII + 7 non-ASCII representatives), title, text; links and images",
-    "thorough": "3 definitions; 2 free characters in title/text; destination 2 free characters",
+    "quick": "2 definitions: first label any of the 12-label menu, second label and the use from a 4-label sub-menu (one per class; symbolic indices), 1 free character in the title; "
+             "reference-vs-inline form: one free character at a time in destination (ASCII + 7 non-ASCII representatives), title, text; links and images",
+    "thorough": "2 definitions with all labels/uses from the full menu and a free character in the link text; 3 definitions with the sub-menu; forms with two free characters at a time, both presets",
 }
 OUTSIDE = ("label matching as Unicode case folding for ALL labels is not decided: symbolic lower()/upper() costs ~27 s per path (C-level Unicode tables), the menu "
            "exercises it; definitions spanning more lines than the scaffolds")
@@ -32,7 +32,13 @@ def _free(params):
     fr = [Free(f"l{i}", kind="int", lo=0, hi=len(LABELS) - 1) for i in range(params["ndef"])]
     fr.append(Free("use", kind="int", lo=0, hi=len(LABELS) - 1))
     fr.append(Free("t", exclude="\r\0\n"))
-    fr.append(Free("x", exclude="\r\0\n"))
+    if params.get("free_text"):
+        fr.append(Free("x", exclude="\r\0\n"))
+    # quick tier: later definitions and the use come from a 4-label sub-menu (one label of each class)
+    if params.get("submenu"):
+        for f in fr:
+            if f.kind == "int" and f.name != "l0":
+                f.extra = f"{f.name} in {params['submenu']!r}"
     return fr
 
 
@@ -50,7 +56,7 @@ def _run(params, values):
     r_doc = ""
     for i, lb in enumerate(labs):
         r_doc = r_doc + f"[{lb}]: /u{i} '" + (t if i == 0 else f"t{i}") + "'\n"
-    d_doc = "[" + values["x"] + "][" + use + "] ![i][" + use + "] [" + use + "]\n"
+    d_doc = "[" + values.get("x", "x") + "][" + use + "] ![i][" + use + "] [" + use + "]\n"
     recs = []
     try:
         env1: dict = {}
@@ -105,7 +111,14 @@ def _run(params, values):
 
 
 def _form_free(params):
-    fr = [Free("d", exclude="\r\0\n", extra=urlish("d")), Free("t", exclude="\r\0\n"), Free("x", exclude="\r\0\n")]
+    fr = []
+    vary = params.get("vary", "dtx")
+    if "d" in vary:
+        fr.append(Free("d", exclude="\r\0\n", extra=urlish("d")))
+    if "t" in vary:
+        fr.append(Free("t", exclude="\r\0\n"))
+    if "x" in vary:
+        fr.append(Free("x", exclude="\r\0\n"))
     return fr
 
 
@@ -122,7 +135,7 @@ def _strip_pos(view):
 
 def _form_run(params, values):
     md = get_md(params["cfg"])
-    d, t, x = values["d"], values["t"], values["x"]
+    d, t, x = values.get("d", "q"), values.get("t", "u"), values.get("x", "y")
     # keep the free characters from changing the construct itself (decided on the symbolic values)
     if d in " \t<>()\\" or t in "\"\\" or x in "[]\\!`*_<&" or d == "" :
         return [], "assume: delimiter character"
@@ -159,13 +172,21 @@ HARNESSES = {
 
 def jobs(tier, seed):
     jobs = []
-    nd = 2 if tier == "quick" else 3
-    # sharded by the label of the first definition
-    for l0 in range(len(LABELS)):
-        jobs.append({"harness": "seeded", "params": {"cfg": CM, "ndef": nd, "l0": l0}, "weight": 10, "cpu_cap": 3000, "wall_cap": 4000})
-    for image in (False, True):
-        for cfg in ((CM,) if tier == "quick" else (CM, JS)):
-            jobs.append({"harness": "forms", "params": {"cfg": cfg, "image": image}, "weight": 20, "cpu_cap": 3000, "wall_cap": 4000})
+    if tier == "quick":
+        for l0 in range(len(LABELS)):
+            jobs.append({"harness": "seeded", "params": {"cfg": CM, "ndef": 2, "l0": l0, "submenu": [1, 3, 7, 10]}, "weight": 10,
+                         "cpu_cap": 3000, "wall_cap": 4000})
+        for image in (False, True):
+            for vary in ("d", "t", "x"):
+                jobs.append({"harness": "forms", "params": {"cfg": CM, "image": image, "vary": vary}, "weight": 6, "cpu_cap": 3000, "wall_cap": 4000})
+    else:
+        for l0 in range(len(LABELS)):
+            jobs.append({"harness": "seeded", "params": {"cfg": CM, "ndef": 2, "l0": l0, "free_text": True}, "weight": 30, "cpu_cap": 9000, "wall_cap": 10000})
+            jobs.append({"harness": "seeded", "params": {"cfg": CM, "ndef": 3, "l0": l0, "submenu": [1, 3, 7, 10]}, "weight": 30, "cpu_cap": 9000, "wall_cap": 10000})
+        for image in (False, True):
+            for cfg in (CM, JS):
+                for vary in ("dt", "tx", "dx"):
+                    jobs.append({"harness": "forms", "params": {"cfg": cfg, "image": image, "vary": vary}, "weight": 30, "cpu_cap": 9000, "wall_cap": 10000})
     return jobs
 
 
